@@ -404,13 +404,21 @@ fn gen_c06_ops(rng: &mut Rng, n: usize) -> Vec<Op> {
     for _ in 0..n {
         let len = rng.usize(1, 5);
         let mut script = Vec::new();
-        for _ in 0..len {
-            let k = match rng.below(10) {
-                0..=3 => *rng.pick(&SAFE),
-                4..=7 => *rng.pick(&UNSAFE),
-                _ => *rng.pick(&OTHER),
-            };
-            script.push(if k == "close" { Att::Close } else { Att::Err(k) });
+        if rng.chance(1, 5) {
+            // the same failure again and again: exercises the policies' "already retried once" memory
+            let k = *rng.pick(&["read_timeout", "write_timeout", "unavailable", "bootstrapping", "overloaded"]);
+            for _ in 0..rng.usize(3, 9) {
+                script.push(Att::Err(k));
+            }
+        } else {
+            for _ in 0..len {
+                let k = match rng.below(10) {
+                    0..=3 => *rng.pick(&SAFE),
+                    4..=7 => *rng.pick(&UNSAFE),
+                    _ => *rng.pick(&OTHER),
+                };
+                script.push(if k == "close" { Att::Close } else { Att::Err(k) });
+            }
         }
         if rng.chance(2, 3) {
             script.push(Att::Ok);
@@ -483,6 +491,17 @@ fn judge_c06(o: &mut Outcome, ops: &[Op], policy: u8, r: &CaseOut) {
         let bound = 3 + [2usize, 3, 0][policy as usize];
         if frames.len() > bound {
             o.violation(format!("c06b:{pname}:too-many-attempts"), format!("request {} reached the nodes {} times; plan length 3 + same-node retries allows {bound}", op.op, frames.len()), replay.clone());
+        }
+        // (2b) the policy's fixed number of same-node retries: consecutive frames at the same node
+        // (documented: Default at most 2 - one after a read timeout, one after a batch-log write
+        // timeout; Downgrading: a small constant; Fallthrough: none)
+        let same_node_retries = (1..frames.len()).filter(|k| frames[*k].node == frames[*k - 1].node).count();
+        let max_same = [2usize, 3, 0][policy as usize];
+        if same_node_retries > max_same {
+            o.violation(format!("c06b:{pname}:same-node-retries-unbounded"), format!("request {} was sent {same_node_retries} times again to the node it had just failed on; the policy's fixed number of same-node retries is at most {max_same}", op.op), replay.clone());
+        }
+        if same_node_retries > 0 {
+            o.class("same-node-retry-observed");
         }
         // (3) the driver sends exactly the attempts the policy decided: frames == 1 + retry decisions,
         // on the target and at the consistency the decision named
